@@ -36,6 +36,20 @@ def universe_for(T):
     ex("exp_0abc", "0abc")
     ex("exp_Tm1x", "%dx" % (T - 1))
     ex("exp_Tm1_tagged", str(T - 1), extra=[["t", "a"], ["e", "bb" * 32]])
+    # strings that int() or a lenient CAST would take for a number although they are not decimal timestamps
+    tm1 = str(T - 1)
+    ex("exp_arabic_Tm1", "".join(chr(0x660 + int(c)) for c in tm1))
+    ex("exp_fullwidth_Tm1", "".join(chr(0xFF10 + int(c)) for c in tm1))
+    ex("exp_superscript", "\u00b2\u2070\u00b2\u00b3")
+    ex("exp_plus5", "+5")
+    ex("exp_space5", " 5")
+    ex("exp_5space", "5 ")
+    ex("exp_neg5", "-5")
+    ex("exp_5dot0", "5.0")
+    ex("exp_1_000", "1_000")
+    ex("exp_5e0", "5e0")
+    ex("exp_0x5", "0x5")
+    ex("exp_lead0_Tm1", "0" + tm1)
     u["exp_bare"] = make_event("A", 1, 101, [["expiration"]], "bare")
     u["b_exp_Tp1"] = make_event("B", 1, 101, [["expiration", str(T + 1)], ["t", "a"]], "")
     return u
@@ -81,8 +95,12 @@ def subsets_for(tier, tn):
     n = len(CORE)
     for mask in range(2 ** n):
         add([CORE[i] for i in range(n) if mask >> i & 1])
+    names = list(U(tn))
+    for k in (1, 2):
+        for c in itertools.combinations(names, k):
+            add(c)
+    add(names)
     if tier == "thorough":
-        names = list(U(tn))
         for k in range(0, 4):
             for c in itertools.combinations(names, k):
                 add(c)
@@ -368,12 +386,14 @@ def run_case(case):
 
 def coverage(tier, agg):
     return {
-        "rule": "every subset of the boundary universe (kinds 1/19999/20000/29999/30000; expiration T-1, T, T+1, 2^31-1, '5', JSON integer T-1, "
-                "'', 'abc', '0abc', '<T-1>x', bare tag, expiring event with extra tags, foreign author) is built through the real websocket "
+        "rule": "subsets of the boundary universe (kinds 1/19999/20000/29999/30000; expiration T-1, T, T+1, 2^31-1, '5', JSON integer T-1, "
+                "'', 'abc', '0abc', '<T-1>x', bare tag, expiring event with extra tags, foreign author; strings a lenient parser takes for numbers: "
+                "Arabic-Indic / full-width / superscript digits, '+5', ' 5', '5 ', '-5', '5.0', '1_000', '5e0', '0x5', leading zero) are built through the real websocket "
                 "EVENT path, then one real collector pass runs at T in {1700000000, 1000000000 (digit-count boundary)}; oracle: ephemeral and "
                 "well-formed-expired removed, everything else kept, expiration == T free, no tag row / index key left for removed events; plus "
                 "ephemeral live-delivery/non-queryability scenario and periodic driver with an injected engine error in its first pass. "
-                "quick: all 1024 subsets of a 10-event core; thorough: those plus every subset of size <= 3 of the 18-event universe plus the full universe.",
+                "quick: all %d subsets of an %d-event core, every subset of size <= 2 of the %d-event universe and the full universe; thorough: also "
+                "every subset of size 3." % (2 ** len(CORE), len(CORE), len(U("T17"))),
         "T_values": TS,
         "backends": ["sql", "kv"],
     }
